@@ -253,17 +253,25 @@ type ksState struct {
 }
 
 type env struct {
-	dir     string
-	corpus  map[string][]byte
-	tap     *logTap
-	srv     *rawServer
-	a       *app.App
-	grpcApp *app.App
-	envoy   *app.Envoy
-	httpc   *http.Client
-	ks      map[string]*ksState
-	trustP  string
-	secretW watcher.Watcher // the secrets watcher all key stores are registered with
+	dir       string
+	corpus    map[string][]byte
+	tap       *logTap
+	srv       *rawServer
+	a         *app.App
+	grpcApp   *app.App
+	envoy     *app.Envoy
+	httpc     *http.Client
+	ks        map[string]*ksState
+	trustP    string
+	secretW   watcher.Watcher // the secrets watcher all key stores are registered with
+	pub       []string        // key set published on the management endpoint before the current step
+	pubKnown  bool
+	held      map[string][]string // per key store kind: what the reloading components hand out themselves
+	heldKnown map[string]bool
+
+	grpcRulesApp   *app.App // second instance (envoy ext_authz) with its own watched rule directory, started on demand
+	grpcRulesEnvoy *app.Envoy
+	grpcRulesDir   string
 
 	rulesDir, fileA, fileB string
 	rulesKind              string // kRules, or kRulesEnv when the provider runs with env_vars_enabled
@@ -314,7 +322,7 @@ func barrierDoc(gen int) []byte {
 }
 
 func newEnv(dir string, corpus map[string][]byte, envVars bool) (_ *env, err error) {
-	e := &env{dir: dir, corpus: corpus, tap: newLogTap(), ks: map[string]*ksState{}, rulesKind: kRules}
+	e := &env{dir: dir, corpus: corpus, tap: newLogTap(), ks: map[string]*ksState{}, rulesKind: kRules, held: map[string][]string{}, heldKnown: map[string]bool{}}
 	if envVars {
 		e.rulesKind = kRulesEnv
 	}
@@ -438,6 +446,12 @@ func (e *env) stop() {
 	}
 	if e.grpcApp != nil {
 		_ = e.grpcApp.Stop()
+	}
+	if e.grpcRulesEnvoy != nil {
+		e.grpcRulesEnvoy.Close()
+	}
+	if e.grpcRulesApp != nil {
+		_ = e.grpcRulesApp.Stop()
 	}
 	if e.a != nil {
 		_ = e.a.Stop()
@@ -663,6 +677,7 @@ func (e *env) writeKS(st *ksState, in *inputSpec, idx int, data []byte, stepName
 			j.Content = journalContent(s.after)
 		}
 		e.journalW(j)
+		e.publishedBefore(st)
 		n0 := e.tap.count(st.path)
 		if err := s.do(st.path); err != nil {
 			res.Problems = append(res.Problems, problem{Sig: "inconclusive:harness-write-failed", What: err.Error()})
@@ -685,6 +700,7 @@ func (e *env) writeKS(st *ksState, in *inputSpec, idx int, data []byte, stepName
 		}
 		res.Alive++
 		_, why := e.tap.outcome(st.path, n0)
+		e.publishedAfter(st, out == "failed", j.Step, s.after, why, res)
 		if out == "failed" {
 			res.Rejected++
 			if st.id != "" {
@@ -890,52 +906,62 @@ func (e *env) writeRules(in *inputSpec, idx int, data []byte, stepName, marker s
 		if !e.barrier(res) {
 			return false
 		}
-		res.Reloads++
-		res.Observed = true
-		w1, why := e.tap.warns(e.fileA)
-		if w1 > w0 {
-			res.Rejected++
-			if e.ruleMarker != "" {
-				up, answered := e.markerUp(e.ruleMarker)
-				switch {
-				case !answered:
-					res.Problems = append(res.Problems, problem{Sig: "inconclusive:unresponsive", What: "no answer for the marker request"})
-					return false
-				case up:
-					res.PrevChecks++
-				default:
-					res.Problems = append(res.Problems, problem{Sig: "previous-state-lost:" + e.rulesKind,
-						What:   "the file_system provider logged a rejected rule file, but the rule set previously loaded from that file (marker " + e.ruleMarker + ") no longer matches",
-						Detail: map[string]any{"step": j.Step, "rejected_content": witness(s.after), "reject_reason": why, "previous_marker": e.ruleMarker}})
-					e.ruleMarker = ""
-				}
-			}
-			continue
+		if !e.judgeRuleFile(w0, s.after, marker, j.Step, res) {
+			return false
 		}
-		res.Accepted++
-		switch {
-		case marker != "" && first(e.markerUp(marker)):
-			e.ruleMarker = marker
-		case e.ruleMarker != "" && first(e.markerUp(e.ruleMarker)):
-		default:
-			// No rejection was logged and the rule set loaded from this file before no longer answers: the content
-			// replaced it or unloaded it. That is what a rule set (whatever its routes) and a file without any content
-			// may do, nothing else.
-			if e.ruleMarker != "" {
-				res.ShapeChecks++
-				switch shape, detail := ruleFileShape(s.after); shape {
-				case "no-document":
-					res.Notes = append(res.Notes, "emptied-rule-file-unloaded")
-				case "rule-set-shaped":
-					res.Notes = append(res.Notes, "rule-set-replaced-by-one-without-the-marker-route")
-				default:
-					res.Problems = append(res.Problems, problem{Sig: "unloaded-by-content-that-is-no-rule-set:" + e.rulesKind,
-						What:   "the rule file holds a document that is not a rule set (" + detail + "); no rejection was logged and the rule set previously loaded from that file (marker " + e.ruleMarker + ") no longer matches",
-						Detail: map[string]any{"step": j.Step, "content": witness(s.after), "content_is": detail, "previous_marker": e.ruleMarker}})
-				}
+	}
+	return true
+}
+
+// judgeRuleFile: the barrier has been observed, i.e. every event up to it was processed. What became of the rule set
+// loaded from the mutated rule file (w0: rejections logged for it before the step, after: its content now, marker: the
+// route a valid new version would serve)?
+func (e *env) judgeRuleFile(w0 int, after []byte, marker, step string, res *inResult) bool {
+	res.Reloads++
+	res.Observed = true
+	w1, why := e.tap.warns(e.fileA)
+	if w1 > w0 {
+		res.Rejected++
+		if e.ruleMarker != "" {
+			up, answered := e.markerUp(e.ruleMarker)
+			switch {
+			case !answered:
+				res.Problems = append(res.Problems, problem{Sig: "inconclusive:unresponsive", What: "no answer for the marker request"})
+				return false
+			case up:
+				res.PrevChecks++
+			default:
+				res.Problems = append(res.Problems, problem{Sig: "previous-state-lost:" + e.rulesKind,
+					What:   "the file_system provider logged a rejected rule file, but the rule set previously loaded from that file (marker " + e.ruleMarker + ") no longer matches",
+					Detail: map[string]any{"step": step, "rejected_content": witness(after), "reject_reason": why, "previous_marker": e.ruleMarker}})
+				e.ruleMarker = ""
 			}
-			e.ruleMarker = ""
 		}
+		return true
+	}
+	res.Accepted++
+	switch {
+	case marker != "" && first(e.markerUp(marker)):
+		e.ruleMarker = marker
+	case e.ruleMarker != "" && first(e.markerUp(e.ruleMarker)):
+	default:
+		// No rejection was logged and the rule set loaded from this file before no longer answers: the content
+		// replaced it or unloaded it. That is what a rule set (whatever its routes) and a file without any content
+		// may do, nothing else.
+		if e.ruleMarker != "" {
+			res.ShapeChecks++
+			switch shape, detail := ruleFileShape(after); shape {
+			case "no-document":
+				res.Notes = append(res.Notes, "emptied-rule-file-unloaded")
+			case "rule-set-shaped":
+				res.Notes = append(res.Notes, "rule-set-replaced-by-one-without-the-marker-route")
+			default:
+				res.Problems = append(res.Problems, problem{Sig: "unloaded-by-content-that-is-no-rule-set:" + e.rulesKind,
+					What:   "the rule file holds a document that is not a rule set (" + detail + "); no rejection was logged and the rule set previously loaded from that file (marker " + e.ruleMarker + ") no longer matches",
+					Detail: map[string]any{"step": step, "content": witness(after), "content_is": detail, "previous_marker": e.ruleMarker}})
+			}
+		}
+		e.ruleMarker = ""
 	}
 	return true
 }
@@ -982,6 +1008,8 @@ func first(a, _ bool) bool { return a }
 func (e *env) applyRules(in *inputSpec, idx int, res *inResult) bool {
 	data := in.materialize(e.corpus)
 	switch in.meta("mode") {
+	case "churn":
+		return e.applyChurn(in, idx, res)
 	case "remove-recreate":
 		e.journalW(jEntry{Seq: in.Seq, Index: idx, Kind: in.Kind, Step: "apply", Note: "rule file removed"})
 		_ = os.Remove(e.fileA)
@@ -1026,6 +1054,13 @@ func (e *env) applyRules(in *inputSpec, idx int, res *inResult) bool {
 	}
 	if !e.writeRules(in, idx, data, "apply", in.meta("marker"), res) {
 		return false
+	}
+	if in.meta("mode") == "matcher" {
+		if e.ruleMarker != in.meta("marker") {
+			res.Notes = append(res.Notes, "matcher-expression-rejected-at-load-time")
+			return true
+		}
+		return e.matcherProbes(in, idx, res)
 	}
 	if in.meta("expanded") == "1" && in.Class != "truncation" && e.ruleMarker == in.meta("marker") {
 		res.Expanded++ // the probed route exists only if the expression was replaced by the expected value
